@@ -7,6 +7,7 @@ import (
 	"os"
 	"path/filepath"
 	"regexp"
+	"runtime"
 	"runtime/debug"
 	"strings"
 	"sync"
@@ -107,33 +108,158 @@ func processCPU() time.Duration {
 	return time.Duration(ru.Utime.Nano() + ru.Stime.Nano())
 }
 
-// anyRunnable reports whether a goroutine with a thunder frame (outside the
-// baseline) is running or runnable, i.e. not parked: the system is then not
-// quiescent, however long nothing observable happened (it may be starved of
-// CPU, or spinning).
-func anyRunnable(base []string) bool {
-	for _, g := range vlib.ThunderGoroutines(base...) {
-		head := strings.SplitN(g, "\n", 2)[0]
-		if strings.Contains(head, "[running") || strings.Contains(head, "[runnable") {
-			return true
+// curGoroutineMarker returns the "goroutine N [" marker of the calling goroutine.
+func curGoroutineMarker() string {
+	buf := make([]byte, 64)
+	buf = buf[:runtime.Stack(buf, false)]
+	if m := goroutineHeader.FindSubmatch(buf); m != nil {
+		return "goroutine " + string(m[1]) + " ["
+	}
+	return ""
+}
+
+// goroutineState describes one goroutine of a dump.
+//
+// parked: blocked on a channel, a select, a mutex, a wait group, a condition
+// variable or network I/O — the states the runtime only uses for operations
+// of the program itself. "semacquire" also labels waits inside the allocator
+// and the collector, so it only counts when the innermost frame is package
+// sync's. Running, runnable, sleeping (a timer is outstanding), in a syscall,
+// "GC assist wait" and the like are NOT parked: such a goroutine is working
+// or waiting for the machine, not for an event that will never come.
+// inThunder: has a frame of thunder itself (not of the harness).
+func goroutineState(g string) (parked, inThunder bool) {
+	lines := strings.Split(g, "\n")
+	head := lines[0]
+	state := ""
+	if i := strings.Index(head, "["); i >= 0 {
+		state = head[i+1:]
+		if j := strings.IndexAny(state, ",]"); j >= 0 {
+			state = state[:j]
 		}
 	}
-	return false
+	top := ""
+	if len(lines) > 1 {
+		top = lines[1]
+	}
+	switch {
+	case state == "chan receive", state == "chan send", state == "select", state == "IO wait",
+		strings.HasPrefix(state, "sync.Mutex"), strings.HasPrefix(state, "sync.RWMutex"), strings.HasPrefix(state, "sync.WaitGroup"), strings.HasPrefix(state, "sync.Cond"),
+		strings.HasPrefix(state, "chan receive (nil"), strings.HasPrefix(state, "select (no cases"):
+		parked = true
+	case state == "semacquire":
+		parked = strings.HasPrefix(top, "sync.")
+	}
+	for _, ln := range lines {
+		if strings.HasPrefix(ln, "github.com/samsarahq/thunder/") && !strings.HasPrefix(ln, "github.com/samsarahq/thunder/verifharness") {
+			inThunder = true
+			break
+		}
+	}
+	return
 }
+
+// stackBody is a goroutine's stack without its header line (the header
+// carries the waiting time, which changes).
+func stackBody(g string) string {
+	if i := strings.Index(g, "\n"); i >= 0 {
+		return g[i+1:]
+	}
+	return ""
+}
+
+// parkedSample takes one goroutine dump and reports the stack of the
+// goroutine matching `want` if (a) it is present, inside thunder and parked
+// and (b) every other goroutine with a thunder frame is parked too. The
+// calling goroutine itself (a wait that runs on the entry point's own
+// goroutine, e.g. inside the fake socket's ReadJSON) counts as parked.
+func parkedSample(want string) (body string, all []string, ok bool) {
+	self := curGoroutineMarker()
+	for _, g := range strings.Split(vlib.Stacks(), "\n\n") {
+		parked, inThunder := goroutineState(g)
+		if !inThunder {
+			continue
+		}
+		isSelf := self != "" && strings.HasPrefix(g, self)
+		if isSelf {
+			parked = true
+		}
+		if !parked {
+			return "", nil, false
+		}
+		all = append(all, truncMiddle(g, 1200, 4000))
+		if strings.Contains(g, want) {
+			if isSelf {
+				body = "(the waiting goroutine itself)" // its stack shows this very check, at differing lines
+			} else {
+				body = stackBody(g)
+			}
+		}
+	}
+	return body, all, body != ""
+}
+
+// stuckEvidence decides whether "not finished" may be called stuck (design
+// section 2.5): the goroutine executing the call (or a frame of the entry
+// point, such as "(*conn).ServeJSONSocket") is present, inside thunder and
+// parked on a blocking operation of the program; every goroutine with a
+// thunder frame is parked; the same holds, with the identical stack, in a
+// second dump a quarter of a second later; and the condition is STILL false
+// when re-read after both dumps (a call that returned in between is not a
+// hang). Anything else is "no evidence": the caller keeps waiting and finally
+// reports inconclusive, never a violation.
+func stuckEvidence(want string, finished func() bool) (stuck bool, stacks []string) {
+	b1, _, ok := parkedSample(want)
+	if !ok || finished() {
+		return false, nil
+	}
+	time.Sleep(250 * time.Millisecond)
+	b2, all, ok := parkedSample(want)
+	if !ok || b1 != b2 || finished() {
+		return false, nil
+	}
+	if len(all) > 12 {
+		all = all[:12]
+	}
+	return true, all
+}
+
+// busyInThunder reports whether the goroutine marked `marker` is, in one
+// dump, inside thunder and not parked (working or waiting for the machine).
+func busyInThunder(marker string) (bool, string) {
+	for _, g := range strings.Split(vlib.Stacks(), "\n\n") {
+		if strings.HasPrefix(g, marker) {
+			parked, inThunder := goroutineState(g)
+			return inThunder && !parked, truncMiddle(g, 1200, 4000)
+		}
+	}
+	return false, ""
+}
+
+// lastStuckStacks keeps the dump on which the last hang verdict of this
+// process was based (for the witness).
+var lastStuckStacks atomic.Value // []string
 
 // callGuarded runs f on its own goroutine behind a recover wrapper and waits
 // for it with the stuck-versus-slow classifier. activity is a monotone
 // counter of everything that moves in the scenario. Verdicts:
-//   - callHung (parked): no activity over three samples and every goroutine
-//     with a thunder frame is parked;
-//   - callHung (spinning): the call has not returned although the process
-//     burnt more than cpuBudget of CPU time since it started (CPU time, not
-//     wall-clock time: a starved process does not accumulate it; 0 = no budget);
-//   - callUndecided: anything else at the hard deadline.
+//   - callHung (parked): vlib.WaitCond found the counters stable and its
+//     scheduler-lag probe clean, AND the goroutine executing the call is
+//     present in a goroutine dump, inside a thunder frame, in a waiting state,
+//     AND no thunder goroutine is runnable, AND the call is still not done
+//     when the done flag is read after that dump;
+//   - callHung (spinning): the process burnt more than cpuBudget of CPU time
+//     since the call started (CPU time, not wall-clock time; 0 = no budget)
+//     and then, five times in a row with at least another half budget of CPU
+//     in between, the call's goroutine was found working inside thunder and
+//     the call still had not returned;
+//   - callUndecided: anything else at the hard deadline (reported as
+//     inconclusive, never as a violation).
 func callGuarded(target string, activity func() int64, soft, hard, cpuBudget time.Duration, f func()) (callStatus, *panicRec) {
 	var done int32
 	var rec *panicRec
 	var mu sync.Mutex
+	var marker atomic.Value // string
 	cpu0 := processCPU()
 	go func() {
 		defer atomic.StoreInt32(&done, 1)
@@ -145,12 +271,15 @@ func callGuarded(target string, activity func() int64, soft, hard, cpuBudget tim
 				mu.Unlock()
 			}
 		}()
+		marker.Store(curGoroutineMarker())
 		f()
 	}()
 	isDone := func() bool { return atomic.LoadInt32(&done) == 1 }
 	overBudget := func() bool { return cpuBudget > 0 && processCPU()-cpu0 > cpuBudget }
 	start := time.Now()
 	status := callUndecided
+	const spinSamples = 5
+	spins := 0
 	for {
 		left := hard - time.Since(start)
 		if left < time.Second {
@@ -162,15 +291,44 @@ func callGuarded(target string, activity func() int64, soft, hard, cpuBudget tim
 			status = callReturned
 			break
 		}
-		if out == vlib.Reached { // CPU budget exhausted without returning
-			status = callHung
-			break
+		m, _ := marker.Load().(string)
+		if m != "" && out == vlib.QuiescentNot {
+			if stuck, stacks := stuckEvidence(m, isDone); stuck {
+				lastStuckStacks.Store(stacks)
+				status = callHung
+				break
+			}
 		}
-		if out == vlib.QuiescentNot && !anyRunnable(nil) {
-			status = callHung
+		if m != "" && out == vlib.Reached && !isDone() {
+			// The CPU budget is exhausted without a return. Process CPU time also
+			// counts the collector and the race detector, which burn CPU when the
+			// machine is oversubscribed, so this alone decides nothing: the call's
+			// goroutine must be found working inside thunder in spinSamples
+			// consecutive looks, each after at least another half budget of CPU.
+			if busy, st := busyInThunder(m); busy && !isDone() {
+				spins++
+				if spins >= spinSamples {
+					lastStuckStacks.Store([]string{st})
+					status = callHung
+					break
+				}
+			} else {
+				spins = 0
+			}
+			cpu0 = processCPU() - cpuBudget/2 // look again after another half budget of CPU
+		}
+		if isDone() {
+			status = callReturned
 			break
 		}
 		if time.Since(start) > hard {
+			// a last look: the result may just not have been noticed yet
+			for k := 0; k < 20 && !isDone(); k++ {
+				time.Sleep(100 * time.Millisecond)
+			}
+			if isDone() {
+				status = callReturned
+			}
 			break
 		}
 	}
@@ -180,6 +338,49 @@ func callGuarded(target string, activity func() int64, soft, hard, cpuBudget tim
 		return callPanicked, rec
 	}
 	return status, nil
+}
+
+// hangStacks returns the dump the last hang verdict was based on.
+func hangStacks() []string {
+	st, _ := lastStuckStacks.Load().([]string)
+	return st
+}
+
+// waitOutcome is what a "wait for the connection to do X" step may conclude.
+type waitOutcome int
+
+const (
+	waitReached   waitOutcome = iota
+	waitStuck                 // parked with evidence: a verdict
+	waitNoVerdict             // anything else: inconclusive
+)
+
+// waitEntry waits for cond on a live entry point (frame names a function of
+// it that must be on the stack of a waiting goroutine, e.g. "ServeJSONSocket").
+func waitEntry(cond func() bool, activity func() int64, frame string, soft, hard time.Duration) (waitOutcome, []string) {
+	start := time.Now()
+	for {
+		left := hard - time.Since(start)
+		if left < time.Second {
+			left = time.Second
+		}
+		out := vlib.WaitCond(cond, activity, soft, left)
+		soft = 0
+		if out == vlib.Reached || cond() {
+			return waitReached, nil
+		}
+		if out == vlib.QuiescentNot {
+			if stuck, stacks := stuckEvidence(frame, cond); stuck {
+				return waitStuck, stacks
+			}
+		}
+		if cond() {
+			return waitReached, nil
+		}
+		if time.Since(start) > hard {
+			return waitNoVerdict, nil
+		}
+	}
 }
 
 var goroutineHeader = regexp.MustCompile(`(?m)^goroutine (\d+) \[`)
